@@ -21,7 +21,11 @@ RULE = ('generated dataset directories loaded by the real TemplateModel, then ge
         'get_cluster_mean_waveforms, cluster_waveforms, the templates_* / clusters_* properties, spike / count / merge-map '
         'accessors, describe, a second TemplateModel on the same directory, repeated get_template, the caller overwriting '
         'arrays it was returned) inserted anywhere between the requests, requests in shuffled template order, a request '
-        'repeated at the end; amplitudes.npy present or absent. Corpus (the inputs of the '
+        'repeated at the end; amplitudes.npy present or absent; in a third of the datasets an ENVIRONMENT: 1-5 bystander '
+        'files in the directory that the model must not take for its own (templates_ind.npy as KiloSort2 writes it, '
+        'near-miss spellings / .bak / other-case / sub-directory copies of template_ind, templates, whitening_mat(_inv), '
+        'channel_shanks, channel_positions, channel_map with other contents, similar_templates.npy, cluster_*.tsv, logs, '
+        'junk binaries), dir_path given as Path, str or through a symlink. Corpus (the inputs of the '
         'repaired amplitude-alignment defect and one boundary case per operator) first, then a pairwise sweep of the '
         'configuration axes, then seeded random. Non-trivial = a record with at least two listed channels was returned; '
         'distinct = distinct abstract (dataset, requests).')
@@ -220,6 +224,12 @@ def _mk(rng, **f):
            'tmpl_dtype': f.get('tmpl_dtype', rng.choice(['float32', 'float32', 'float64'])),
            'cols_dtype': rng.choice(['int32', 'int64']), 'st': st, 'sc': sc, 'scale': scale,
            'opts': {'storage': storage, 'geo': geo, 'shanks': shk, 'wmi': wkind, 'styles': styles}}
+    # environment axis (stage 6): bystander files in the directory, the form of dir_path
+    xmode = f.get('extras', rng.choice(['none', 'none', 'none', 'none', 'ks2', 'any']))
+    if xmode != 'none':
+        sem['extras'] = D5.gen_extras(rng, sem, xmode)
+        sem['dirform'] = rng.choice(['path', 'path', 'str', 'symlink'])
+    sem['opts']['extras'] = xmode
     reqs = []
     for tid in range(nt):
         # 'bare': m.get_template(tid) with no keyword at all (the signature's own defaults)
@@ -341,6 +351,34 @@ def _corpus():
     out.append({'ds': dt, 'reqs': [_T('amps_c'), _T('cluster_wf'), _T('cmean', 2)] + again + [_T('amps_t')] + again})
     out.append({'ds': dict(sp, amps=True, wmi=dh['wmi'], wfiles='both'),
                 'reqs': [G(0)] + [_T(o, 3) for o in TOUCH] + [G(0), G(1), G(0, unw=False), {'k': 'acc', 'tid': 0}]})
+    # environment (stage 6): bystander files in the dataset directory.  A KiloSort2 directory = DENSE templates.npy next
+    # to templates_ind.npy (with an s; every row 0..n-1): still dense storage -- two shanks, 5 channels with a
+    # neighbourhood of 2, a threshold, an explicit list (where dense and sparse records differ); a sparse dataset next to
+    # a templates_ind.npy with other columns; look-alikes of every other file the records depend on, with other contents
+    import random
+    xr = random.Random(6)
+    X = lambda sem_, kind, name=None, form=None: D5.gen_extra(xr, sem_, kind, name, form)
+    reqs6 = [G(0), G(1), G(0, thr=[1, 2]), G(0, unw=False), G(0, chans=[1, 0], form='array'), {'k': 'acc', 'tid': 0},
+             {'k': 'clu', 'cid': 0}]
+    out.append({'ds': dict(base, extras=[X(base, 'ind', 'templates_ind.npy', 'ks2')]), 'reqs': reqs6})
+    nc = 5
+    ds5 = dict(base, nc=nc, ns=2, templates=[[[0] * nc, [6, 4, 8, 5, 7]], [[-(c + 1) for c in range(nc)], [c % 3 for c in range(nc)]]],
+               positions=[[0, 3 * i * i + 20 * i] for i in range(nc)], shanks=None, nclosest=2)
+    out.append({'ds': dict(ds5, extras=[X(ds5, 'ind', 'templates_ind.npy', 'ks2'), X(ds5, 'other', 'similar_templates.npy'),
+                                        X(ds5, 'other', 'cluster_KSLabel.tsv')], dirform='str'), 'reqs': reqs6[:4]})
+    out.append({'ds': dict(ds5, extras=[X(ds5, 'ind', 'template_ind.npy.bak', 'perm'), X(ds5, 'ind', 'backup/template_ind.npy', 'minus'),
+                                        X(ds5, 'ind', 'Template_ind.npy', 'ks2')], dirform='symlink'), 'reqs': reqs6[:4]})
+    out.append({'ds': dict(sp, extras=[X(sp, 'ind', 'templates_ind.npy', 'ks2'), X(sp, 'ind', 'template_inds.npy', 'perm')]),
+                'reqs': [G(0), G(1), G(0, unw=False), {'k': 'acc', 'tid': 0}, {'k': 'clu', 'cid': 0}]})
+    dw = dict(base, wmi=[[0, 2, 0, 0], [1, 0, 0, 0], [0, 0, 0, -1], [0, 0, 4, 0]], wfiles='wm')
+    out.append({'ds': dict(dw, extras=[X(dw, 'wm', 'backup/whitening_mat_inv.npy'), X(dw, 'wm', 'whitening_mat_inv.npy.bak'),
+                                       X(dw, 'shank', 'channel_shank.npy'), X(dw, 'pos', 'channel_position.npy'),
+                                       X(dw, 'tmpl', 'templates_unw.npy'), X(dw, 'cmap', 'channel_map_old.npy'),
+                                       X(dw, 'other', 'rez.mat'), X(dw, 'other', 'phy.log')]), 'reqs': reqs6})
+    db = dict(base, shanks=None)
+    out.append({'ds': dict(db, extras=[X(db, 'shank', 'channel_shanks.npy.bak'), X(db, 'shank', 'backup/channel_shanks.npy'),
+                                       X(db, 'wm', 'Whitening_mat.npy'), X(db, 'wm', 'whitening_matrix.npy')], dirform='symlink'),
+                'reqs': reqs6})
     return[{'kind': 'get', 'inp': copy.deepcopy(c)} for c in out]
 
 
@@ -348,7 +386,7 @@ AXES = [
     ('storage', ['dense', 'sparse']), ('nclosest', [12, 2, 3, 0]),
     ('geo', ['lin', 'grid2', 'stagger', 'cols', 'irregular', 'quad']),
     ('shanks', ['none', 'one', 'bycol', 'blocks', 'random']), ('wmi', ['none', 'diag', 'perm', 'tri', 'full']),
-    ('thr', THRS), ('tmpl_dtype', ['float32', 'float64']),
+    ('thr', THRS), ('tmpl_dtype', ['float32', 'float64']), ('extras', ['none', 'ks2', 'any']),
 ]
 
 
@@ -494,6 +532,13 @@ def run_case(case):
     d = tempfile.mkdtemp(prefix='c05_', dir=os.environ.get('VT_WORK') or None)
     try:
         kw = D.materialise(D5.files_of(sem), d)
+        D5.write_extras(sem, d)                                 # bystander files: not part of the abstract dataset
+        if sem.get('dirform') == 'str':
+            kw['dir_path'] = str(kw['dir_path'])
+        elif sem.get('dirform') == 'symlink':
+            link = d + '_ln'
+            os.symlink(d, link)
+            kw['dir_path'] = type(kw['dir_path'])(link)
         if sem['nclosest'] != 12:
             kw['n_closest_channels'] = sem['nclosest']          # 12 = the class attribute itself
         if sem['thr'] != [0, 1]:
@@ -518,6 +563,8 @@ def run_case(case):
         m.close()
         return ('ok', wmi, out)
     finally:
+        if os.path.islink(d + '_ln'):
+            os.unlink(d + '_ln')
         shutil.rmtree(d, ignore_errors=True)
 
 
@@ -572,6 +619,11 @@ def dist(case, obs):
            'nclosest=%d' % ncl, 'channels_vs_nclosest=%s' % ('all' if ncl == 0 else 'fewer' if nc < ncl else 'equal' if nc == ncl else 'more'),
            'default_thr=%d/%d' % tuple(sem['thr']), 'tmpl_dtype=%s' % sem['tmpl_dtype'], 'template_scaling=%s' % sem.get('scale'), 'curated=%s' % (sem.get('sc') is not None),
            'outcome=%s' % (obs[0] if obs[0] == 'ok' else 'crash:' + str(obs[1]))]
+    out.append('dirform=%s' % sem.get('dirform', 'path'))
+    for x in sem.get('extras') or [None]:
+        out.append('bystander=%s' % (None if x is None else x['name']))
+        if x is not None and x['name'].endswith('_ind.npy') or x is not None and 'ind' in x['name'] and 'npy' in x:
+            out.append('bystander_ind_with=%s/%s' % (o.get('storage'), 'more' if ncl and nc > ncl else 'notmore'))
     for rq in case['inp']['reqs']:
         if rq['k'] == 'get':
             out.append('req=get%s%s%s' % ('' if rq['chans'] is None else ':explicit-' + str(rq['form']),
@@ -631,6 +683,14 @@ def shrink(case):
     inp = case['inp']
     sem, reqs = inp['ds'], inp['reqs']
     gets = [i for i, r in enumerate(reqs) if r['k'] != 'touch']
+    if sem.get('dirform') not in (None, 'path'):
+        yield {'kind': 'get', 'inp': {'ds': dict(sem, dirform='path'), 'reqs': reqs}}
+    xs = sem.get('extras') or []
+    if len(xs) > 1:                                             # one bystander file alone, then one fewer
+        for x in xs:
+            yield {'kind': 'get', 'inp': {'ds': dict(sem, extras=[x]), 'reqs': reqs}}
+        for i in range(len(xs)):
+            yield {'kind': 'get', 'inp': {'ds': dict(sem, extras=xs[:i] + xs[i + 1:]), 'reqs': reqs}}
     if len(gets) > 1:
         for i in gets:                                          # one request, without any history
             yield {'kind': 'get', 'inp': {'ds': sem, 'reqs': [reqs[i]]}}
